@@ -119,6 +119,11 @@ func genC11(e *emitter, tier string, seed int64) {
 		{"field-max", "", fieldOf("int", "9223372036854775807")},
 		{"field-str", "", fieldOf("str", "  abc%2Fdef xyz  ")},
 		{"field-numstr", "", fieldOf("str", "12.75")},
+		{"field-zeropad", "", fieldOf("str", "010")},
+		{"field-hexstr", "", fieldOf("str", "0x1f")},
+		{"field-octal755", "", fieldOf("str", "0755")},
+		{"var-underscore-num", "k = \"1_000\"\n", func(p *pointSpec) {}},
+		{"tag-zeropad", "", func(p *pointSpec) { p.Tags = append(p.Tags, [2]string{"k", "0100"}) }},
 		{"field-json", "", fieldOf("str", `{"a": [1, 2.5, "x", null, true], "b": {"c": 1}}`)},
 		{"field-badjson", "", fieldOf("str", `{"a": `)},
 		{"field-badurl", "", fieldOf("str", "%zz")},
@@ -129,6 +134,7 @@ func genC11(e *emitter, tier string, seed int64) {
 		{"field-tinyfloat", "", fieldOf("float", "13731694030708141453")},
 		{"field-hugefloat", "", fieldOf("float", "9097811302482466869")},
 		{"field-bool", "", fieldOf("bool", "false")},
+		{"field-go-bytes", "", fieldOf("bytes", " raw%20Bytes ")},
 		{"field-nil", "", fieldOf("nil", "")},
 		{"tag", "", func(p *pointSpec) { p.Tags = append(p.Tags, [2]string{"k", " Tag%20Val "}) }},
 		{"var-over-field", "k = \"from-var\"\n", fieldOf("str", "from-field")},
@@ -147,7 +153,7 @@ func genC11(e *emitter, tier string, seed int64) {
 		`printf("%v|%s|%d\n", k, "x", 3)`, `printf("plain\n")`, "printf(k)", `printf("%v", 1/zero)`, "printf(5, 1)", `printf("")`,
 		"trim(k)", `trim(k, " a")`, `trim(k, "")`, `trim("k")`,
 		"uppercase(k)", `uppercase("k")`,
-		`replace(k, "[a-c]+", "X")`, `replace(k, "(", "X")`, `replace(k, "l+", "$0$0")`,
+		`replace(k, "[a-c]+", "X")`, `replace(k, "(", "X")`, `replace(k, "l+", "$0$0")`, `replace(k, "ell", "[$0]")`, `replace(k, "a", "$$")`, `replace(k, "abc", "$1x")`, `replace(k, "0", "${0}0")`, `replace(k, "", "-")`,
 		"url_decode(k)", `url_decode("k")`,
 		// `_` stands for message
 		"add_key(_, 1)", "p(get_key(_))", "drop_key(_)", "rename(newk, _)", "rename(message, _)", "rename(_, message)", `rename("message", _)`, "rename(_, _)", "rename(_, k)", "rename(k, _)", "uppercase(_)", "trim(_)", "set_tag(_)", `cast(_, "int")`, "add_key(nk, _)",
